@@ -824,7 +824,11 @@ def Array(
                         for i in range(0, len(values), chunk_size)
                     ]
 
-                return b"".join(cls.element_type.encode(values[i]) for i in range(_len))
+                data = b"".join(cls.element_type.encode(values[i]) for i in range(_len))
+                if _length is not None and not isinstance(_length, int):
+                    # length-typed array: element count goes first, encoded as that type
+                    data = _length.encode(_len) + data
+                return data
             except Exception as err:
                 raise DataError(
                     f"Error packing {reprlib.repr(values)} into {cls.element_type}[{_length}]"
@@ -848,12 +852,12 @@ def Array(
                 if _length is None:
                     return cls._decode_all(stream)
 
-                if isinstance(_length, DataType):
-                    _len = _length.decode(stream)
-                else:
+                if isinstance(_length, int):
                     _len = _length
+                else:
+                    _len = _length.decode(stream)
 
-                _val = [cls.element_type.decode(stream) for _ in range(_length)]
+                _val = [cls.element_type.decode(stream) for _ in range(_len)]
 
                 if issubclass(cls.element_type, BitArrayType):
                     return list(chain.from_iterable(_val))
